@@ -580,7 +580,7 @@ CONSULT = ("read", "read_to_end", "read_to_string", "fill_buf", "bytes", "read_b
 READS = ("read_exact", "read_u8", "read_i8", "read_u16", "read_u24", "read_u32", "read_u48", "read_u64", "read_u128", "read_uint", "read_i16", "read_i32", "read_i64")
 
 
-@rule("C05", "C05-L2", 5, "items are self-delimiting: a decoder that consults the end of its input (short read, read_to_end) is only ever run in tail position of its reader - nothing more is read from that reader after it")
+@rule("C05", "C05-L2", 5, "items are self-delimiting: a decoder that consults the end of its input (short read, read_to_end) is only ever run in tail position of its reader - nothing more is read from that reader after it; no decoder decides a value from a short read", also=("C06",))
 def c05_l2(ctx):
     """Necessary for decode(encode(v)) == v when items are written back to back: an item whose
     decoder decides a value from 'the input ended here' decodes differently when followed by
@@ -638,6 +638,16 @@ def c05_l2(ctx):
                     break
     if len(E) < 5:
         raise Anchor("C05-L2", "end-of-input-delimited decoders (the PDU payloads with trailing lists / file data): %d found" % len(E))
+    # (b) the only way a decoder may consult the end of its input is "take all that is left"
+    # (read_to_end): a value decided by a short read (`read(..) == 0 => default`, fill_buf, bytes())
+    # makes the decoder accept encodings the encoder never writes and depend on what follows
+    nshort = 0
+    for n, (f, own, calls) in sorted(info.items()):
+        for b, t, kind, rd, tg, last in calls:
+            if kind == "consult" and last not in ("read_to_end", "read_to_string"):
+                nshort += 1
+                yield bad("C05-L2", "%s:%s" % (short(f.impl_self_adt or f.norm) + "::" + f.name, last), at(f, t["span"]["line"]), "the decoder decides something from a short read (%s on `%s`): an absent field is accepted where the encoder always writes one, so accepted input is not canonical and the item is not self-delimiting" % (last, rd))
+    yield ok("C05-L2", "decoders:no-short-read", "%d decoders" % len(D), "%d short-read consults" % nshort) if nshort == 0 else ok("C05-L2", "decoders:short-reads-reported", "-", "%d reported" % nshort, nontrivial=False)
     cnt = {}
     for n, (f, own, calls) in sorted(info.items()):
         for b, t, kind, rd, tg, last in calls:
